@@ -97,6 +97,9 @@ func cmdVerify(args []string) int {
 		if _, ok := w.Funcs[k]; !ok && c.Trusted {
 			continue
 		}
+		if c.Inline {
+			continue // only carries loop invariants for a literal that is verified in place
+		}
 		x.verifyFunction(c)
 	}
 	dir := *keep
